@@ -73,7 +73,11 @@ impl FileReader for NullFileReader {
     fn opened(&mut self, _size: u32) -> FileAction {
         FileAction::Continue
     }
-    fn block_received(&mut self, _block_num: u32, _data: &[u8]) -> crate::app::MaybeAsync<FileAction> {
+    fn block_received(
+        &mut self,
+        _block_num: u32,
+        _data: &[u8],
+    ) -> crate::app::MaybeAsync<FileAction> {
         crate::app::MaybeAsync::ready(FileAction::Continue)
     }
     fn aborted(&mut self, _err: FileError) {}
@@ -84,19 +88,32 @@ pub async fn run_script(case: &Case) -> CaseOut {
     let mut out = CaseOut::default();
     let mut rig = MasterRig::start(case.discard, case.decode, case.tx).await;
     let mut cfg = if case.startup {
-        let mut c = AssociationConfig::new(EventClasses::all(), EventClasses::all(), Classes::all(), EventClasses::all());
+        let mut c = AssociationConfig::new(
+            EventClasses::all(),
+            EventClasses::all(),
+            Classes::all(),
+            EventClasses::all(),
+        );
         c.response_timeout = Timeout::from_millis(TIMEOUT).unwrap();
-        c.auto_tasks_retry_strategy = RetryStrategy::new(Duration::from_millis(50), Duration::from_millis(400));
+        c.auto_tasks_retry_strategy =
+            RetryStrategy::new(Duration::from_millis(50), Duration::from_millis(400));
         c.auto_time_sync = Some(TimeSyncProcedure::Lan);
         c
     } else {
         assoc_config(TIMEOUT)
     };
-    cfg.keep_alive_timeout = case.keep_alive_ms.map(|x| Duration::from_millis(20 + x as u64));
+    cfg.keep_alive_timeout = case
+        .keep_alive_ms
+        .map(|x| Duration::from_millis(20 + x as u64));
     rig.add_association(OUT, cfg, Some(1_700_000_000_000)).await;
     if let Some(p) = case.poll_ms {
         let mut h = rig.assocs.get_mut(&OUT).unwrap().handle.clone();
-        let _ = h.add_poll(ReadRequest::class_scan(Classes::all()), Duration::from_millis(20 + p as u64)).await;
+        let _ = h
+            .add_poll(
+                ReadRequest::class_scan(Classes::all()),
+                Duration::from_millis(20 + p as u64),
+            )
+            .await;
     }
     rig.connect().await;
     let mut last_req: Option<Fragment> = None;
@@ -121,7 +138,11 @@ pub async fn run_script(case: &Case) -> CaseOut {
                 }
                 let b = rig.frame_fragment(OUT, M_ADDR, &bytes);
                 send_chunked(&mut rig, &b, case.chunk);
-                out.label(if outstanding { "inject_mid_task" } else { "inject_idle" });
+                out.label(if outstanding {
+                    "inject_mid_task"
+                } else {
+                    "inject_idle"
+                });
                 injected_mid_task |= outstanding;
                 out.nontrivial = true;
             }
@@ -130,7 +151,11 @@ pub async fn run_script(case: &Case) -> CaseOut {
                     // FIR/FIN response with the right sequence number and a hostile object part
                     let mut bytes = vec![0xC0 | r.seq, 129, spec.iin.0, spec.iin.1 & 0xF8];
                     for h in &spec.headers {
-                        bytes.extend(fraggen::build_header(h, 129, 1800usize.saturating_sub(bytes.len())));
+                        bytes.extend(fraggen::build_header(
+                            h,
+                            129,
+                            1800usize.saturating_sub(bytes.len()),
+                        ));
                     }
                     bytes.truncate(2040);
                     let b = rig.frame_fragment(OUT, M_ADDR, &bytes);
@@ -145,11 +170,19 @@ pub async fn run_script(case: &Case) -> CaseOut {
                 if let Some(r) = last_req.take() {
                     let mut objects = r.objects.clone();
                     if let Ok(hs) = ra::walk(r.func, &r.objects) {
-                        if let Some(h) = hs.iter().find(|h| (h.q == 0x17 || h.q == 0x28) && !h.objects.is_empty()) {
+                        if let Some(h) = hs
+                            .iter()
+                            .find(|h| (h.q == 0x17 || h.q == 0x28) && !h.objects.is_empty())
+                        {
                             // re-encode that header with the chosen deviation (it is the first such header of the fragment)
-                            let start: usize = hs.iter().take_while(|x| *x != h).map(|x| x.raw_len).sum();
+                            let start: usize =
+                                hs.iter().take_while(|x| *x != h).map(|x| x.raw_len).sum();
                             let wide = h.q == 0x28;
-                            let mut objs: Vec<(u32, Vec<u8>)> = h.objects.iter().map(|o| (o.index.unwrap_or(0), o.data.clone())).collect();
+                            let mut objs: Vec<(u32, Vec<u8>)> = h
+                                .objects
+                                .iter()
+                                .map(|o| (o.index.unwrap_or(0), o.data.clone()))
+                                .collect();
                             let mut count_bump = 0i32;
                             match kind % 5 {
                                 1 => objs.push(objs.last().cloned().unwrap()),
@@ -185,7 +218,16 @@ pub async fn run_script(case: &Case) -> CaseOut {
                         objects.extend(twice);
                     }
                     objects.truncate(2030);
-                    let f = Fragment { fir: true, fin: true, con: false, uns: false, seq: r.seq, func: func::RESPONSE, iin: Some((0, 0)), objects };
+                    let f = Fragment {
+                        fir: true,
+                        fin: true,
+                        con: false,
+                        uns: false,
+                        seq: r.seq,
+                        func: func::RESPONSE,
+                        iin: Some((0, 0)),
+                        objects,
+                    };
                     rig.respond(OUT, &f);
                     out.label("echo_answer");
                     injected_mid_task = true;
@@ -194,7 +236,16 @@ pub async fn run_script(case: &Case) -> CaseOut {
             }
             Step::Proper => {
                 if let Some(r) = last_req.take() {
-                    let f = Fragment { fir: true, fin: true, con: false, uns: false, seq: r.seq, func: func::RESPONSE, iin: Some((0, 0)), objects: vec![] };
+                    let f = Fragment {
+                        fir: true,
+                        fin: true,
+                        con: false,
+                        uns: false,
+                        seq: r.seq,
+                        func: func::RESPONSE,
+                        iin: Some((0, 0)),
+                        objects: vec![],
+                    };
                     rig.respond(OUT, &f);
                     out.label("proper_answer");
                 }
@@ -220,20 +271,89 @@ pub async fn run_script(case: &Case) -> CaseOut {
                 let mut h = rig.assocs.get_mut(&OUT).unwrap().handle.clone();
                 let name = format!("user{k}");
                 match k % 12 {
-                    0 => drop(rig.submit(&name, async move { h.read(ReadRequest::class_scan(Classes::class0())).await.map_err(|e| format!("{e:?}")) })),
-                    1 => drop(rig.submit(&name, async move { h.read(ReadRequest::class_scan(Classes::class123())).await.map_err(|e| format!("{e:?}")) })),
-                    2 => drop(rig.submit(&name, async move {
-                        h.operate(CommandMode::DirectOperate, CommandBuilder::single_header_u16(crate::app::control::Group12Var1::from_op_type(crate::app::control::OpType::LatchOn), 65535u16)).await.map_err(|e| format!("{e:?}"))
+                    0 => drop(rig.submit(&name, async move {
+                        h.read(ReadRequest::class_scan(Classes::class0()))
+                            .await
+                            .map_err(|e| format!("{e:?}"))
                     })),
-                    3 => drop(rig.submit(&name, async move { h.operate(CommandMode::SelectBeforeOperate, CommandBuilder::single_header_u8(crate::app::control::Group41Var4::new(1.5), 255u8)).await.map_err(|e| format!("{e:?}")) })),
-                    4 => drop(rig.submit(&name, async move { h.synchronize_time(TimeSyncProcedure::Lan).await.map_err(|e| format!("{e:?}")) })),
-                    5 => drop(rig.submit(&name, async move { h.synchronize_time(TimeSyncProcedure::NonLan).await.map_err(|e| format!("{e:?}")) })),
-                    6 => drop(rig.submit(&name, async move { h.cold_restart().await.map(|_| ()).map_err(|e| format!("{e:?}")) })),
-                    7 => drop(rig.submit(&name, async move { h.check_link_status().await.map_err(|e| format!("{e:?}")) })),
-                    8 => drop(rig.submit(&name, async move { h.write_dead_bands(vec![DeadBandHeader::group34_var3_u16(vec![(65535, 1.5)])]).await.map_err(|e| format!("{e:?}")) })),
-                    9 => drop(rig.submit(&name, async move { h.send_and_expect_empty_response(FunctionCode::ImmediateFreeze, Headers::default().add_all_objects(Variation::Group20Var0)).await.map_err(|e| format!("{e:?}")) })),
-                    10 => drop(rig.submit(&name, async move { h.read(ReadRequest::all_objects(Variation::Group0Var254)).await.map_err(|e| format!("{e:?}")) })),
-                    _ => drop(rig.submit(&name, async move { h.read_file("f", FileReadConfig::default(), Box::new(NullFileReader), None).await.map_err(|e| format!("{e:?}")) })),
+                    1 => drop(rig.submit(&name, async move {
+                        h.read(ReadRequest::class_scan(Classes::class123()))
+                            .await
+                            .map_err(|e| format!("{e:?}"))
+                    })),
+                    2 => drop(rig.submit(&name, async move {
+                        h.operate(
+                            CommandMode::DirectOperate,
+                            CommandBuilder::single_header_u16(
+                                crate::app::control::Group12Var1::from_op_type(
+                                    crate::app::control::OpType::LatchOn,
+                                ),
+                                65535u16,
+                            ),
+                        )
+                        .await
+                        .map_err(|e| format!("{e:?}"))
+                    })),
+                    3 => drop(rig.submit(&name, async move {
+                        h.operate(
+                            CommandMode::SelectBeforeOperate,
+                            CommandBuilder::single_header_u8(
+                                crate::app::control::Group41Var4::new(1.5),
+                                255u8,
+                            ),
+                        )
+                        .await
+                        .map_err(|e| format!("{e:?}"))
+                    })),
+                    4 => drop(rig.submit(&name, async move {
+                        h.synchronize_time(TimeSyncProcedure::Lan)
+                            .await
+                            .map_err(|e| format!("{e:?}"))
+                    })),
+                    5 => drop(rig.submit(&name, async move {
+                        h.synchronize_time(TimeSyncProcedure::NonLan)
+                            .await
+                            .map_err(|e| format!("{e:?}"))
+                    })),
+                    6 => drop(rig.submit(&name, async move {
+                        h.cold_restart()
+                            .await
+                            .map(|_| ())
+                            .map_err(|e| format!("{e:?}"))
+                    })),
+                    7 => drop(rig.submit(&name, async move {
+                        h.check_link_status().await.map_err(|e| format!("{e:?}"))
+                    })),
+                    8 => drop(rig.submit(&name, async move {
+                        h.write_dead_bands(vec![DeadBandHeader::group34_var3_u16(vec![(
+                            65535, 1.5,
+                        )])])
+                        .await
+                        .map_err(|e| format!("{e:?}"))
+                    })),
+                    9 => drop(rig.submit(&name, async move {
+                        h.send_and_expect_empty_response(
+                            FunctionCode::ImmediateFreeze,
+                            Headers::default().add_all_objects(Variation::Group20Var0),
+                        )
+                        .await
+                        .map_err(|e| format!("{e:?}"))
+                    })),
+                    10 => drop(rig.submit(&name, async move {
+                        h.read(ReadRequest::all_objects(Variation::Group0Var254))
+                            .await
+                            .map_err(|e| format!("{e:?}"))
+                    })),
+                    _ => drop(rig.submit(&name, async move {
+                        h.read_file(
+                            "f",
+                            FileReadConfig::default(),
+                            Box::new(NullFileReader),
+                            None,
+                        )
+                        .await
+                        .map_err(|e| format!("{e:?}"))
+                    })),
                 }
                 out.label("user_request");
             }
@@ -244,37 +364,77 @@ pub async fn run_script(case: &Case) -> CaseOut {
                 let _ = rig.take_requests();
                 let mut h = rig.assocs.get_mut(&OUT).unwrap().handle.clone();
                 // requests that no other step makes, so that the fragment on the wire identifies the task
-                let (p, want_func, want_objs): (crate::verif::rig::master::Pending, u8, Vec<u8>) = match user % 5 {
-                    0 => (
-                        rig.submit("starved", async move {
-                            h.operate(CommandMode::DirectOperate, CommandBuilder::single_header_u16(crate::app::control::Group12Var1::from_op_type(crate::app::control::OpType::LatchOn), 4242u16)).await.map_err(|e| format!("{e:?}"))
-                        }),
-                        func::DIRECT_OPERATE,
-                        vec![12, 1, 0x28, 1, 0, 0x92, 0x10],
-                    ),
-                    1 => (rig.submit("starved", async move { h.warm_restart().await.map(|_| ()).map_err(|e| format!("{e:?}")) }), func::WARM_RESTART, vec![]),
-                    2 => (
-                        rig.submit("starved", async move { h.write_dead_bands(vec![DeadBandHeader::group34_var3_u16(vec![(4242, 1.5)])]).await.map_err(|e| format!("{e:?}")) }),
-                        func::WRITE,
-                        vec![34, 3, 0x28, 1, 0, 0x92, 0x10],
-                    ),
-                    3 => (
-                        rig.submit("starved", async move { h.send_and_expect_empty_response(FunctionCode::FreezeClear, Headers::default().add_all_objects(Variation::Group20Var0)).await.map_err(|e| format!("{e:?}")) }),
-                        func::FREEZE_CLEAR,
-                        vec![20, 0],
-                    ),
-                    _ => (
-                        rig.submit("starved", async move { h.read(ReadRequest::one_byte_range(Variation::Group30Var1, 77, 78)).await.map_err(|e| format!("{e:?}")) }),
-                        func::READ,
-                        vec![30, 1, 0, 77, 78],
-                    ),
-                };
+                let (p, want_func, want_objs): (crate::verif::rig::master::Pending, u8, Vec<u8>) =
+                    match user % 5 {
+                        0 => (
+                            rig.submit("starved", async move {
+                                h.operate(
+                                    CommandMode::DirectOperate,
+                                    CommandBuilder::single_header_u16(
+                                        crate::app::control::Group12Var1::from_op_type(
+                                            crate::app::control::OpType::LatchOn,
+                                        ),
+                                        4242u16,
+                                    ),
+                                )
+                                .await
+                                .map_err(|e| format!("{e:?}"))
+                            }),
+                            func::DIRECT_OPERATE,
+                            vec![12, 1, 0x28, 1, 0, 0x92, 0x10],
+                        ),
+                        1 => (
+                            rig.submit("starved", async move {
+                                h.warm_restart()
+                                    .await
+                                    .map(|_| ())
+                                    .map_err(|e| format!("{e:?}"))
+                            }),
+                            func::WARM_RESTART,
+                            vec![],
+                        ),
+                        2 => (
+                            rig.submit("starved", async move {
+                                h.write_dead_bands(vec![DeadBandHeader::group34_var3_u16(vec![(
+                                    4242, 1.5,
+                                )])])
+                                .await
+                                .map_err(|e| format!("{e:?}"))
+                            }),
+                            func::WRITE,
+                            vec![34, 3, 0x28, 1, 0, 0x92, 0x10],
+                        ),
+                        3 => (
+                            rig.submit("starved", async move {
+                                h.send_and_expect_empty_response(
+                                    FunctionCode::FreezeClear,
+                                    Headers::default().add_all_objects(Variation::Group20Var0),
+                                )
+                                .await
+                                .map_err(|e| format!("{e:?}"))
+                            }),
+                            func::FREEZE_CLEAR,
+                            vec![20, 0],
+                        ),
+                        _ => (
+                            rig.submit("starved", async move {
+                                h.read(ReadRequest::one_byte_range(Variation::Group30Var1, 77, 78))
+                                    .await
+                                    .map_err(|e| format!("{e:?}"))
+                            }),
+                            func::READ,
+                            vec![30, 1, 0, 77, 78],
+                        ),
+                    };
                 // wait (answering nothing) until that very request is on the wire; other work may be ahead of it
                 let mut sent: Option<Fragment> = None;
                 for _ in 0..24 {
                     rig.settle().await;
                     for (_, _, f) in rig.take_requests() {
-                        if f.func == want_func && f.objects.starts_with(&want_objs) && f.func != func::CONFIRM {
+                        if f.func == want_func
+                            && f.objects.starts_with(&want_objs)
+                            && f.func != func::CONFIRM
+                        {
                             sent = Some(f);
                         }
                     }
@@ -292,11 +452,29 @@ pub async fn run_script(case: &Case) -> CaseOut {
                     while waited <= TIMEOUT + every {
                         match kind % 4 {
                             0 => {
-                                let f = Fragment { fir: true, fin: true, con: true, uns: true, seq: n & 0x0F, func: func::UNSOLICITED_RESPONSE, iin: Some((0, 0)), objects: vec![] };
+                                let f = Fragment {
+                                    fir: true,
+                                    fin: true,
+                                    con: true,
+                                    uns: true,
+                                    seq: n & 0x0F,
+                                    func: func::UNSOLICITED_RESPONSE,
+                                    iin: Some((0, 0)),
+                                    objects: vec![],
+                                };
                                 rig.respond(OUT, &f);
                             }
                             1 => {
-                                let f = Fragment { fir: true, fin: true, con: false, uns: false, seq: (req.seq + 1 + (n % 15)) & 0x0F, func: func::RESPONSE, iin: Some((0, 0)), objects: vec![] };
+                                let f = Fragment {
+                                    fir: true,
+                                    fin: true,
+                                    con: false,
+                                    uns: false,
+                                    seq: (req.seq + 1 + (n % 15)) & 0x0F,
+                                    func: func::RESPONSE,
+                                    iin: Some((0, 0)),
+                                    objects: vec![],
+                                };
                                 rig.respond(OUT, &f);
                             }
                             2 => {
@@ -304,7 +482,16 @@ pub async fn run_script(case: &Case) -> CaseOut {
                                 rig.send_raw(&b);
                             }
                             _ => {
-                                let f = Fragment { fir: true, fin: true, con: false, uns: false, seq: req.seq, func: func::RESPONSE, iin: Some((0, 0)), objects: vec![] };
+                                let f = Fragment {
+                                    fir: true,
+                                    fin: true,
+                                    con: false,
+                                    uns: false,
+                                    seq: req.seq,
+                                    func: func::RESPONSE,
+                                    iin: Some((0, 0)),
+                                    objects: vec![],
+                                };
                                 let b = rig.frame_fragment(3000, M_ADDR, &f.encode());
                                 rig.send_raw(&b);
                             }
@@ -378,7 +565,16 @@ pub async fn run_script(case: &Case) -> CaseOut {
             if r.func == func::CONFIRM {
                 continue;
             }
-            let f = Fragment { fir: true, fin: true, con: false, uns: false, seq: r.seq, func: func::RESPONSE, iin: Some((0, 0)), objects: vec![] };
+            let f = Fragment {
+                fir: true,
+                fin: true,
+                con: false,
+                uns: false,
+                seq: r.seq,
+                func: func::RESPONSE,
+                iin: Some((0, 0)),
+                objects: vec![],
+            };
             rig.respond(OUT, &f);
             rig.settle().await;
         }
@@ -393,7 +589,9 @@ pub async fn run_script(case: &Case) -> CaseOut {
     rig.send_raw(&b);
     rig.settle().await;
     let tx = rig.take_tx();
-    let status_ok = tx.iter().any(|t| matches!(t, MTx::Link { ctrl, dst, .. } if (*ctrl & 0x0F) == 0x0B && *dst == OUT));
+    let status_ok = tx
+        .iter()
+        .any(|t| matches!(t, MTx::Link { ctrl, dst, .. } if (*ctrl & 0x0F) == 0x0B && *dst == OUT));
     if !status_ok {
         out.fail(Fail::new("probe-link-status", format!("after the script the master does not answer REQUEST_LINK_STATUS; it transmitted {:?}", tx)).with_sig("C01 master probe link status"));
         return out;
@@ -403,7 +601,16 @@ pub async fn run_script(case: &Case) -> CaseOut {
         if let MTx::Fragment { bytes, .. } = t {
             if let Some(r) = Fragment::parse(bytes) {
                 if r.func != func::CONFIRM {
-                    let f = Fragment { fir: true, fin: true, con: false, uns: false, seq: r.seq, func: func::RESPONSE, iin: Some((0, 0)), objects: vec![] };
+                    let f = Fragment {
+                        fir: true,
+                        fin: true,
+                        con: false,
+                        uns: false,
+                        seq: r.seq,
+                        func: func::RESPONSE,
+                        iin: Some((0, 0)),
+                        objects: vec![],
+                    };
                     rig.respond(OUT, &f);
                     rig.settle().await;
                 }
@@ -412,7 +619,11 @@ pub async fn run_script(case: &Case) -> CaseOut {
     }
     // (2) a user read is transmitted without further time passing and completes when answered
     let mut h = rig.assocs.get_mut(&OUT).unwrap().handle.clone();
-    let p = rig.submit("probe", async move { h.read(ReadRequest::one_byte_range(Variation::Group1Var2, 3, 4)).await.map_err(|e| format!("{e:?}")) });
+    let p = rig.submit("probe", async move {
+        h.read(ReadRequest::one_byte_range(Variation::Group1Var2, 3, 4))
+            .await
+            .map_err(|e| format!("{e:?}"))
+    });
     let mut answered = false;
     for _ in 0..60 {
         rig.settle().await;
@@ -421,8 +632,21 @@ pub async fn run_script(case: &Case) -> CaseOut {
                 continue;
             }
             let is_probe = r.func == func::READ && r.objects == ra::h_range8(1, 2, 3, 4, &[]);
-            let objects = if is_probe { ra::h_range8(1, 2, 3, 4, &[0x81, 0x01]) } else { vec![] };
-            let f = Fragment { fir: true, fin: true, con: false, uns: false, seq: r.seq, func: func::RESPONSE, iin: Some((0, 0)), objects };
+            let objects = if is_probe {
+                ra::h_range8(1, 2, 3, 4, &[0x81, 0x01])
+            } else {
+                vec![]
+            };
+            let f = Fragment {
+                fir: true,
+                fin: true,
+                con: false,
+                uns: false,
+                seq: r.seq,
+                func: func::RESPONSE,
+                iin: Some((0, 0)),
+                objects,
+            };
             rig.respond(OUT, &f);
             rig.settle().await;
             answered |= is_probe;
@@ -492,7 +716,18 @@ impl Prop for MasterScript {
             prop_oneof![2 => Just(0u16), 1 => 1u16..300],
             proptest::collection::vec(step, 1..n),
         )
-            .prop_map(|(discard, decode, tx, startup, poll_ms, keep_alive_ms, chunk, steps)| Case { discard, decode, tx, startup, poll_ms, keep_alive_ms, chunk, steps })
+            .prop_map(
+                |(discard, decode, tx, startup, poll_ms, keep_alive_ms, chunk, steps)| Case {
+                    discard,
+                    decode,
+                    tx,
+                    startup,
+                    poll_ms,
+                    keep_alive_ms,
+                    chunk,
+                    steps,
+                },
+            )
             .boxed()
     }
     fn cases(tier: Tier) -> u32 {
@@ -506,7 +741,11 @@ impl Prop for MasterScript {
         rt.block_on(run_script(case))
     }
     fn floors() -> Vec<(&'static str, u32)> {
-        vec![("inject_mid_task", 100), ("hostile_answer", 100), ("inject_idle", 50)]
+        vec![
+            ("inject_mid_task", 100),
+            ("hostile_answer", 100),
+            ("inject_idle", 50),
+        ]
     }
 }
 
